@@ -163,6 +163,16 @@ pub fn check_numeric(rep: &mut Rep, form: &str, x: f64, s: TimeScale) {
     // resolution of a 64-bit float of that magnitude, in that unit (the input itself and the value after removing the origin)
     let tol = (1.5 * flt::ulp(x.abs().max((x - origin_days).abs())) * unit).ceil() as i128 + 1 + ((x - origin_days).abs() * unit * 2.3e-16) as i128;
     rep.sample("numeric", || format!("{:?} => reading {} +- {} ns in {:?}", txt, denoted, tol, s));
+    // other spellings of the same text (no blank after the prefix, doubled blanks, surrounding blanks): not documented, so
+    // an Err is fine - but a value must be the instant the text denotes, never another one
+    for alt in [format!("{}{} {}", form, x, scale_name(s)), format!("{}  {} {}", form, x, scale_name(s)), format!(" {} {} {} ", form, x, scale_name(s)), format!("{} {}  {}", form, x, scale_name(s))] {
+        if let Ok(Ok(g)) = guard(|| Epoch::from_str(&alt)) {
+            rep.class("num/alternative-spelling-accepted");
+            if g.time_scale != s || (count_d(g.duration) - denoted).abs() > tol {
+                rep.fail(&format!("numeric/value-alt-spelling/{form}"), None, || format!("from_str({:?}) = ({}, {:?}); denotes ({} +- {}, {:?}) [off by {} ns]", alt, count_d(g.duration), g.time_scale, denoted, tol, s, count_d(g.duration) - denoted));
+            }
+        }
+    }
     match guard(|| Epoch::from_str(&txt)) {
         Err(p) => rep.fail(&format!("numeric/panic/{}", p.class()), None, || format!("from_str({:?}) panicked: {} at {}", txt, p.msg, p.loc)),
         Ok(Err(e)) => rep.fail(&format!("numeric/err/{form}"), None, || format!("from_str({:?}) = Err({:?})", txt, e)),
